@@ -12,7 +12,6 @@ package text
 
 import (
 	"fmt"
-	"runtime/debug"
 	"testing"
 	"time"
 	"unicode/utf8"
@@ -36,11 +35,8 @@ func c20RunChunk(c c20ChunkCase) string {
 		done <- func() (msg string) {
 			defer func() {
 				if r := recover(); r != nil {
-					st := string(debug.Stack())
-					if len(st) > 1800 {
-						st = st[:1800]
-					}
-					msg = fmt.Sprintf("panic in FixedSizeChunker(size=%d overlap=%d) on %s: %v\n%s", c.Size, c.Overlap, c20ClipQ(s), r, st)
+					st := c20Stack()
+					msg = fmt.Sprintf("panic in FixedSizeChunker(size=%d overlap=%d) on %s: %v at %s", c.Size, c.Overlap, c20ClipQ(s), r, st)
 				}
 			}()
 			a := FixedSizeChunker(s, c.Size, c.Overlap)
@@ -103,11 +99,11 @@ func TestVerif_C20_chunk(t *testing.T) {
 		}
 		return
 	}
-	verifkit.RapidSetup(1200, 18000)
+	verifkit.RapidSetup(1500, 60000)
 	gen := c20GenText(true)
 	rapid.Check(t, func(rt *rapid.T) {
 		var c c20ChunkCase
-		if rapid.IntRange(0, 11).Draw(rt, "invalid_params") == 0 {
+		if rapid.IntRange(0, 11).Draw(rt, "invalid_params") == 5 {
 			switch rapid.IntRange(0, 3).Draw(rt, "ipk") {
 			case 0:
 				c.Size, c.Overlap = rapid.IntRange(-3, 0).Draw(rt, "size"), rapid.IntRange(0, 5).Draw(rt, "overlap")
